@@ -178,6 +178,10 @@ def run(ctx):
     d5_scratch_constant(db, rep)
     d6_sibling_rows(db, rep, FLOAT)
     d7_operand_arity(db, rep)
+    # D13: "identical on every path": a float constant reaches SSE/MMX code through the constant synthesiser; each of its register-only
+    # shortcuts is evaluated on a 32-bit lane against the value it is selected for (lib/constsynth.py)
+    import constsynth
+    constsynth.check(db, rep, "D13-CONST-SYNTHESIS", where)
     # D8: a double parameter reaches the emulator with both halves intact (widening rule, shared with C02 D4): a sign-extended low
     # half turns a finite parameter into a NaN
     from widen import check_or_halves
